@@ -2,7 +2,8 @@
 
 import ast
 
-from ..core.absint import Interp, alternatives, pretty, subst
+from ..core.absint import NONE as NONE_T, Interp, alternatives, pretty, subst
+from .c06 import collect
 from ..core.analysis import Analysis, facts
 from ..core.astutil import handler_catches
 from ..core.cfg import handler_names
@@ -316,6 +317,30 @@ def run(ctx):
     else:
         ctx.fail("C08.R4", "warning", vm.file, vm.node.lineno, vm.qual,
                  "the RuntimeWarning is not issued exactly when some metric is missing")
+
+    # no possibly-missing value reaches arithmetic: `d.get(key)` (None when the
+    # key is absent) may be an operand only where a test has established it is not
+    # None - decided on the interpreted results, so any spelling of the lookups and
+    # of the tests is covered
+    for fn_ in (vm, sm):
+        term = Interp(repo, A).call_function(fn_, [])     # raw term: `bin` nodes intact
+        bad = []
+        for b in collect(term, lambda x: x and x[0] == "bin" and len(x) == 4):
+            for operand in b[2:]:
+                for alt in alternatives(operand):
+                    if alt == NONE_T or (alt and alt[0] == "dget" and alt[3] == NONE_T):
+                        k_ = alt[2][1] if alt != NONE_T and alt[2][0] == "const" else None
+                        bad.append(k_)
+        key = f"maybe-none-arith:{fn_.name}"
+        if bad:
+            ks = sorted({(k.decode() if isinstance(k, bytes) else str(k)) for k in bad})
+            ctx.fail("C08.R4", key, fn_.file, fn_.node.lineno, fn_.qual,
+                     f"{fn_.name}(): a value looked up with .get() ({', '.join(ks)}) is used in "
+                     f"arithmetic where it can still be None: a /proc/meminfo without that "
+                     f"field makes the call raise TypeError instead of succeeding")
+        else:
+            ctx.ok("C08.R4", key, nontrivial=False,
+                   sample="no arithmetic operand can be None for a missing key")
 
     # ------------------------------------------------------------------- R5
     ctx.rule("C08.R5", "fallback estimate: free - low watermarks (pages*PAGESIZE) + "
